@@ -951,6 +951,9 @@ func (ce *cenv) pseudo(name string, x *ast.CallExpr) (Val, bool) {
 	case "allocated": // allocated(p): reference existed at function entry
 		v := arg(0)
 		return boolVal(and(app("<=", "0", v.L[0]), app("<=", v.L[0], ce.old.Top))), true
+	case "sameslice": // sameslice(a, b): the same slice — same backing array, same start, same length (== on slices in a clause compares the array only)
+		a, b := arg(0), arg(1)
+		return boolVal(and(eq(a.L[0], b.L[0]), eq(a.L[1], b.L[1]), eq(a.L[2], b.L[2]))), true
 	case "suffixOf": // suffixOf(a, b): slice a is b[k:] for some k (same array, same end)
 		a, b := arg(0), arg(1)
 		return boolVal(and(eq(a.L[0], b.L[0]), eq(app("+", a.L[1], a.L[2]), app("+", b.L[1], b.L[2])), app("<=", a.L[2], b.L[2]), app("<=", b.L[1], a.L[1]))), true
